@@ -8,6 +8,7 @@ import (
 	"math"
 	"os"
 	"path/filepath"
+	"strings"
 	"testing/iotest"
 
 	"github.com/tdewolff/parse/v2"
@@ -220,10 +221,14 @@ const (
 	beFilePath
 	beMmapPath
 	beMmapFile
+	beStdBytesReader   // *bytes.Reader: a real io.ReadSeeker (+ReaderAt) from the standard library
+	beStdStringsReader // *strings.Reader
+	beStdSection       // *io.SectionReader over a larger source
+	beOSFileAsReader   // *os.File through NewBinaryReaderReader(f, -1 or size)
 	nBackends
 )
 
-var beNames = [...]string{"memory", "reader-with-Bytes", "ReadSeeker(size)", "ReadSeeker(size<0)", "ReaderAt", "Reader(ReadAll)", "Reader(stream)", "File", "FilePath", "MmapPath", "MmapFile"}
+var beNames = [...]string{"memory", "reader-with-Bytes", "ReadSeeker(size)", "ReadSeeker(size<0)", "ReaderAt", "Reader(ReadAll)", "Reader(stream)", "File", "FilePath", "MmapPath", "MmapFile", "bytes.Reader", "strings.Reader", "io.SectionReader", "os.File(as io.Reader)"}
 
 func beSimulated(b int) bool { return b >= beSeeker && b <= beStream }
 func beMemoryLike(b int) bool {
@@ -237,15 +242,16 @@ type heldBytes struct {
 }
 
 type c19 struct {
-	held    []heldBytes
-	ctx     *core.Ctx
-	le      bool
-	be      int
-	data    []byte
-	size    int64
-	facts   string
-	closers []io.Closer
-	yield   func(string)
+	declared int64 // >0: size announced to the constructor although the source is shorter (torn file)
+	held     []heldBytes
+	ctx      *core.Ctx
+	le       bool
+	be       int
+	data     []byte
+	size     int64
+	facts    string
+	closers  []io.Closer
+	yield    func(string)
 }
 
 func (m *c19) viol(class, f string, a ...interface{}) *core.Violation {
@@ -263,7 +269,7 @@ func (m *c19) open(be int, data []byte, plan faultio.Plan) (*parse.BinaryReader,
 	case beBytesReader:
 		r, err = parse.NewBinaryReaderReader(faultio.BytesReader{Reader: faultio.NewReader(ctx, data, faultio.Plan{FailAt: -1})}, int64(ctx.T.Pick(-1, len(data), 0)))
 	case beSeeker:
-		r, err = parse.NewBinaryReaderReader(&faultio.ReadSeeker{Ctx: ctx, Data: data, P: plan, Yield: m.yield, Dev: ctx.T.Sub()}, int64(len(data)))
+		r, err = parse.NewBinaryReaderReader(&faultio.ReadSeeker{Ctx: ctx, Data: data, P: plan, Yield: m.yield, Dev: ctx.T.Sub()}, m.sizeArg(data))
 	case beSeekerAuto:
 		s := &faultio.ReadSeeker{Ctx: ctx, Data: data, P: plan, Yield: m.yield, Dev: ctx.T.Sub()}
 		if len(data) > 0 && ctx.T.Chance(1, 4) {
@@ -271,13 +277,31 @@ func (m *c19) open(be int, data []byte, plan faultio.Plan) (*parse.BinaryReader,
 		}
 		r, err = parse.NewBinaryReaderReader(s, -1)
 	case beReaderAt:
-		r, err = parse.NewBinaryReaderReader(&faultio.ReaderAt{Ctx: ctx, Data: data, P: plan, Yield: m.yield, Dev: ctx.T.Sub()}, int64(len(data)))
+		r, err = parse.NewBinaryReaderReader(&faultio.ReaderAt{Ctx: ctx, Data: data, P: plan, Yield: m.yield, Dev: ctx.T.Sub()}, m.sizeArg(data))
 	case beReadAll:
 		rd := faultio.NewReader(ctx, data, plan)
 		r, err = parse.NewBinaryReaderReader(rd, -1)
 	case beStream:
 		rd := faultio.NewReader(ctx, data, plan)
-		r, err = parse.NewBinaryReaderReader(rd, int64(len(data)))
+		r, err = parse.NewBinaryReaderReader(rd, m.sizeArg(data))
+	case beStdBytesReader:
+		r, err = parse.NewBinaryReaderReader(bytes.NewReader(data), int64(ctx.T.Pick(-1, len(data))))
+	case beStdStringsReader:
+		r, err = parse.NewBinaryReaderReader(strings.NewReader(string(data)), int64(ctx.T.Pick(-1, len(data))))
+	case beStdSection:
+		big := append(append([]byte("HEAD"), data...), "TAIL"...)
+		r, err = parse.NewBinaryReaderReader(io.NewSectionReader(bytes.NewReader(big), 4, int64(len(data))), int64(ctx.T.Pick(-1, len(data))))
+	case beOSFileAsReader:
+		var path string
+		path, err = c19TempFile(data)
+		if err != nil {
+			panic("harness: cannot write temp file: " + err.Error())
+		}
+		var f *os.File
+		if f, err = os.Open(path); err == nil {
+			m.closers = append(m.closers, f)
+			r, err = parse.NewBinaryReaderReader(f, int64(ctx.T.Pick(-1, len(data))))
+		}
 	case beFile, beFilePath, beMmapPath, beMmapFile:
 		var path string
 		path, err = c19TempFile(data)
@@ -306,10 +330,24 @@ func (m *c19) open(be int, data []byte, plan faultio.Plan) (*parse.BinaryReader,
 			m.closers = append(m.closers, r)
 		}
 	}
+	if r != nil && err == nil && ctx.T.Chance(1, 8) {
+		// handing an existing *BinaryReader to the constructor must keep working on the same data
+		if r2, e2 := parse.NewBinaryReaderReader(r, int64(ctx.T.Pick(-1, 0, len(data)))); e2 == nil && r2 != nil {
+			r = r2
+			ctx.Count("probe_binaryreader_passthrough")
+		}
+	}
 	if r != nil && m.le {
 		r.ByteOrder = binary.LittleEndian
 	}
 	return r, err
+}
+
+func (m *c19) sizeArg(data []byte) int64 {
+	if m.declared > 0 {
+		return m.declared
+	}
+	return int64(len(data))
 }
 
 func (m *c19) closeAll() {
@@ -395,6 +433,12 @@ func (m *c19) doReadBytes(b *brModel, n int64, asString bool) *core.Violation {
 	m.ctx.L.EvB(name, got)
 	if !asString && len(got) > 0 && len(m.held) < 32 {
 		m.held = append(m.held, heldBytes{s: got, copy: append([]byte(nil), got...), at: b.pos})
+	}
+	if !asString && m.be != beMmapPath && m.be != beMmapFile {
+		// the caller appends to the byte string it was given: that must never write into the
+		// source (checked by every later read of the following bytes); not done on the read-only
+		// mapping, where such a write would kill the process instead of failing an oracle
+		_ = append(got, 0xEE, 0xEE)
 	}
 	if !b.eof && n <= m.size-b.pos {
 		if !eq(got, m.data[b.pos:b.pos+n]) {
@@ -616,6 +660,9 @@ func RunC19(ctx *core.Ctx) *core.Violation {
 	}
 	wbuf := make([]byte, len(prefix), len(prefix)+t.Pick(0, 0, 3, 64))
 	copy(wbuf, prefix)
+	for i := range wbuf[len(wbuf):cap(wbuf)] {
+		wbuf[len(wbuf):cap(wbuf)][i] = 0xC3 // a recycled buffer: stale bytes in the spare capacity
+	}
 	w := parse.NewBinaryWriter(wbuf)
 	if m.le {
 		w.ByteOrder = binary.LittleEndian
@@ -677,9 +724,15 @@ func RunC19(ctx *core.Ctx) *core.Violation {
 			plan.Err = faultio.ErrInjected
 		}
 	}
+	stale := !ioerr && truncated && (m.be == beSeeker || m.be == beReaderAt || m.be == beStream) && t.Chance(1, 3)
 	mode := "model"
 	if ioerr {
 		mode = "ioerr"
+	}
+	if stale {
+		// the size announced to the constructor is that of the intact data: a torn file
+		m.declared = int64(len(W))
+		mode = "stale-size"
 	}
 	m.facts = fmt.Sprintf("backend=%s mode=%s", beNames[m.be], mode)
 	ctx.SigAdd(uint64(m.be)<<4 | uint64(len(prefix)&1)<<1)
@@ -698,6 +751,12 @@ func RunC19(ctx *core.Ctx) *core.Violation {
 	r, err := m.open(m.be, m.data, plan)
 	if ioerr {
 		return m.runIOErr(r, err, ops, len(prefix), plan)
+	}
+	if stale {
+		if err != nil || r == nil {
+			return m.viol("open-failed", "constructor failed: %v", err)
+		}
+		return m.runStaleSize(r)
 	}
 	if err != nil || r == nil {
 		return m.viol("open-failed", "constructor failed on intact data: %v", err)
@@ -902,6 +961,49 @@ func (m *c19) runIOErr(r *parse.BinaryReader, err error, ops []wrOp, prefixLen i
 	r.Read(make([]byte, 4))
 	if beSeekable(m.be) {
 		r.ReadAt(make([]byte, 4), 0)
+	}
+	return nil
+}
+
+// runStaleSize: the source holds T bytes but the constructor was told the size of the intact
+// data. Demanded: reads entirely before T return the written values with Err()==nil; the
+// first read that runs past T returns zero and makes Err() io.EOF; zero from then on. Pos
+// and Len are not judged (Len is derived from the announced size).
+func (m *c19) runStaleSize(r *parse.BinaryReader) *core.Violation {
+	ctx := m.ctx
+	ctx.NonT = true
+	ctx.Count("probe_stale_size_runs")
+	pos := int64(0)
+	over := false
+	for i := 0; i < 60; i++ {
+		kind := ctx.T.Draw(kI64 + 1)
+		w := int64(kindWidth[kind])
+		got := typedRead(r, kind)
+		ctx.L.Ev("Read"+kindNames[kind], int64(got))
+		if !over && pos+w <= m.size {
+			want := refDecode(m.data[pos:], m.le, int(w), isSigned(kind))
+			if got != want {
+				return m.viol("typed-value-wrong", "torn source (%d of %d announced bytes): Read%s at %d = %#x, want %#x", m.size, m.declared, kindNames[kind], pos, got, want)
+			}
+			if e := r.Err(); e != nil {
+				return m.viol("err-set-without-overrun", "torn source (%d of %d announced bytes): Err() = %v after Read%s at %d, which lies entirely inside the data", m.size, m.declared, e, kindNames[kind], pos)
+			}
+			pos += w
+			continue
+		}
+		if got != 0 {
+			return m.viol("nonzero-past-end", "torn source (%d of %d announced bytes): Read%s at %d runs past the data but returned %#x", m.size, m.declared, kindNames[kind], pos, got)
+		}
+		if e := r.Err(); e != io.EOF {
+			return m.viol("err-not-eof-after-overrun", "torn source (%d of %d announced bytes): Read%s at %d ran past the data but Err() = %v", m.size, m.declared, kindNames[kind], pos, e)
+		}
+		if !over {
+			ctx.Count("probe_stale_size_overrun")
+		}
+		over = true
+		if i > 8 && ctx.T.Chance(1, 3) {
+			break
+		}
 	}
 	return nil
 }
